@@ -18,6 +18,7 @@ T_DEFS = {
 contract(Contract(
     target=M + ":add_tag_newline_handling.<locals>.enhanced_wrapper",
     props=["C03", "C06", "C05"],
+    shards=8,
     params={"text": "str", "initial_indent": "str", "subsequent_indent": "str"},
     free={"base_wrapper": "callable"},
     types={"lines": "list[str]", "segments": "list[str]", "current_segment_lines": "list[str]", "wrapped_segments": "list[str]",
@@ -87,5 +88,142 @@ contract(Contract(
         ("cur_initial_indent = initial_indent if is_first else subsequent_indent", "cur_initial_indent = subsequent_indent", None, ["inv-preserve[loop1.each"]),
         ("            if prev_ends_with_tag or curr_starts_with_tag or curr_is_block or prev_is_block:", "            if prev_ends_with_tag or curr_is_block or prev_is_block:", None, ["boundaries_complete"]),
         ("            curr_is_block = has_tags and line_is_block_content(line)", "            curr_is_block = line_is_block_content(line)", None, ["boundaries_allowed"]),
+    ],
+))
+
+
+# --------------------------------------------------------------------------- _fix_closing_tag_spacing
+F_DEFS = {
+    "closing(l)": "call('_is_closing_tag', l)",
+    "norm(l)": "ite(closing(l), lstrip(l), l)",
+}
+
+contract(Contract(
+    target=M + ":_fix_closing_tag_spacing",
+    props=["C06", "C04", "C02"],
+    params={"text": "str"},
+    types={"lines": "list[str]", "fixed_lines": "list[str]", "line": "str", "stripped": "str", "prev_line": "str",
+           "src": "list[int]", "pos": "list[int]", "i": "int"},
+    calls={"_is_closing_tag": Callee("uf", ret="bool", sig=["line"]),
+           "line_is_block_content": Callee("uf", ret="bool", sig=["line"])},
+    ghost={"src": "[]", "pos": "[]"},
+    hooks=[
+        ("after", "call:fixed_lines.append#0", "src.append(-1)"),
+        ("after", "call:fixed_lines.append#1", "pos.append(len(fixed_lines) - 1); src.append(i)"),
+        ("after", "call:fixed_lines.append#2", "pos.append(len(fixed_lines) - 1); src.append(i)"),
+    ],
+    defs=F_DEFS,
+    loops={0: Loop(inv={
+        "lens": "len(src) == len(fixed_lines) and len(pos) == _i and len(fixed_lines) >= _i",
+        "entries": "all(ite(src[k] == -1, fixed_lines[k] == '', 0 <= src[k] and src[k] < _i and pos[src[k]] == k"
+                   " and fixed_lines[k] == norm(lines[src[k]])) for k in range(len(fixed_lines)))",
+        "kept_in_order": "all(0 <= pos[j] and pos[j] < len(fixed_lines) and src[pos[j]] == j"
+                         " and implies(j > 0, pos[j - 1] < pos[j]) for j in range(_i))",
+        "last": "implies(_i > 0, pos[_i - 1] == len(fixed_lines) - 1)",
+        "blank_only_before_closing_after_block": "all(implies(src[k] == -1, k > 0 and k + 1 < len(fixed_lines) and src[k + 1] >= 0"
+                                                 " and closing(lines[src[k + 1]]) and call('line_is_block_content', fixed_lines[k - 1])"
+                                                 " and strip(fixed_lines[k - 1]) != '') for k in range(len(fixed_lines)))",
+    }, modifies=["src", "pos"], decreases="len(lines) - _i")},
+    ensures={
+        # nothing but blank lines is inserted, every source line is kept, in order; a closing tag line loses at most its
+        # leading blanks; a blank line is inserted only between (non-empty) block content and a closing tag
+        "lines_kept": "len(pos) == len(lines) and len(src) == len(fixed_lines)"
+                      " and all(src[pos[j]] == j and implies(j > 0, pos[j - 1] < pos[j]) for j in range(len(lines)))",
+        "entries": "all(ite(src[k] == -1, fixed_lines[k] == '', fixed_lines[k] == norm(lines[src[k]])) for k in range(len(fixed_lines)))",
+        "blank_only_before_closing_after_block": "all(implies(src[k] == -1, k > 0 and k + 1 < len(fixed_lines) and closing(lines[src[k + 1]])"
+                                                 " and call('line_is_block_content', fixed_lines[k - 1])) for k in range(len(fixed_lines)))",
+        "joined": "result == joinr('\\n', fixed_lines, 0, len(fixed_lines))",
+        # C06/C01: a tag line inside a container (indented continuation) should stay where it is -- it does not
+        "closing_tags_keep_indent": Clause("all(fixed_lines[pos[j]] == lines[j] for j in range(len(lines)))",
+                                           props=["C06", "C01"], finding="C01-closing-tag-unindented"),
+        "closing_tags_keep_indent.residual": Clause("all(implies(lstrip(lines[j]) == lines[j], fixed_lines[pos[j]] == lines[j])"
+                                                    " for j in range(len(lines)))", props=["C06", "C01"]),
+    },
+    canaries=[
+        ("                if not prev_is_empty and prev_is_block:", "                if prev_is_block:", None, ["blank_only_before"]),
+        ("            fixed_lines.append(stripped)", "            fixed_lines.append(stripped.rstrip())", None, ["entries"]),
+        ("        else:\n            fixed_lines.append(line)", "        else:\n            fixed_lines.append(line.rstrip())", None, ["entries"]),
+    ],
+))
+
+
+# --------------------------------------------------------------------------- preprocess_tag_block_spacing
+P_DEFS = {
+    "tagonly(l)": "call('_is_tag_only_line', l)",
+    "block(l)": "call('line_is_block_content', l)",
+    # where the property wants a separating blank line: between a tag-only line and block content (list item / table row),
+    # in either order, unless one is already there
+    "needs_blank(j)": "j >= 1 and strip(lines[j - 1]) != '' and ((tagonly(lines[j - 1]) and block(lines[j]))"
+                      " or (block(lines[j - 1]) and tagonly(lines[j])))",
+}
+
+GHOST_FENCE = (
+    "was_open = g_open; "
+    "run = ite(isnone(fence_match), '', val(fence_match).group(1)); "
+    "closes = g_open and not isnone(fence_match) and run[0] == g_fence[0] and len(run) >= len(g_fence) and strip(line) == run; "
+    "opens = (not g_open) and not isnone(fence_match); "
+    "g_fence = ite(opens, run, g_fence); "
+    "g_open = ite(opens, True, ite(closes, False, g_open)); "
+    "incode.append(was_open)"
+)
+
+contract(Contract(
+    target=M + ":preprocess_tag_block_spacing",
+    props=["C06", "C04", "C02"],
+    shards=10,
+    params={"text": "str"},
+    types={"lines": "list[str]", "result_lines": "list[str]", "line": "str", "prev_line": "str", "open_fence": "opt[str]",
+           "fence_match": "opt[ref:Match]", "src": "list[int]", "pos": "list[int]", "incode": "list[bool]", "i": "int",
+           "g_open": "bool", "g_fence": "str", "was_open": "bool", "run": "str", "closes": "bool", "opens": "bool",
+           "has_tag_only_lines": "bool", "prev_is_empty": "bool"},
+    calls={"_is_tag_only_line": Callee("uf", ret="bool", sig=["line"]),
+           "line_is_block_content": Callee("uf", ret="bool", sig=["line"]),
+           "re.match": Callee("uf", ret="opt[ref:Match]", sig=["pattern", "string"]),
+           # assumed of the fence regex ^ {0,3}(`{3,}|~{3,}): group 1 is a run of at least three fence characters
+           "Match.group": Callee("uf", ret="str", sig=["self", "n"], post=lambda ex, b, r: ex.th.length(ex.z(r)) >= 3)},
+    ghost={"src": "[]", "pos": "[]", "incode": "[]", "g_open": "False", "g_fence": "''", "was_open": "False", "run": "''",
+           "closes": "False", "opens": "False"},
+    hooks=[
+        ("after", "assign:fence_match", GHOST_FENCE),
+        ("after", "call:result_lines.append#0", "pos.append(len(result_lines) - 1); src.append(i)"),       # a line inside code
+        ("after", "call:result_lines.append#1", "src.append(-1)"),
+        ("after", "call:result_lines.append#2", "src.append(-1)"),
+        ("after", "call:result_lines.append#3", "pos.append(len(result_lines) - 1); src.append(i)"),
+    ],
+    defs=P_DEFS,
+    loops={0: Loop(inv={
+        "lens": "len(src) == len(result_lines) and len(pos) == _i and len(incode) == _i and len(result_lines) >= _i",
+        "fence_state": "iff(isnone(open_fence), not g_open) and implies(g_open, val(open_fence) == g_fence)",
+        "entries": "all(ite(src[k] == -1, result_lines[k] == '', 0 <= src[k] and src[k] < _i and pos[src[k]] == k"
+                   " and result_lines[k] == lines[src[k]]) for k in range(len(result_lines)))",
+        "kept_in_order": "all(0 <= pos[j] and pos[j] < len(result_lines) and src[pos[j]] == j"
+                         " and implies(j > 0, pos[j - 1] < pos[j]) for j in range(_i))",
+        "last": "implies(_i > 0, pos[_i - 1] == len(result_lines) - 1)",
+        # C04: nothing is inserted in front of a line that lies inside a fenced code block (or closes it)
+        "blank_only_outside_code_where_needed": "all(implies(src[k] == -1, k + 1 < len(result_lines) and"
+                                                " ite(src[k + 1] == -1, k + 2 < len(result_lines) and src[k + 2] >= 0 and"
+                                                " not incode[src[k + 2]] and needs_blank(src[k + 2]),"
+                                                " not incode[src[k + 1]] and needs_blank(src[k + 1])))"
+                                                " for k in range(len(result_lines)))",
+        # C06: wherever a tag-only line meets block content outside code, a blank line separates them in the output
+        "separated_where_needed": "all(implies(not incode[j] and needs_blank(j), pos[j] >= 1 and src[pos[j] - 1] == -1)"
+                                  " for j in range(_i))",
+    }, modifies=["src", "pos", "incode", "g_open", "g_fence", "was_open", "run", "closes", "opens"],
+        decreases="len(lines) - _i")},
+    ensures={
+        "no_tag_lines_untouched": "implies(not has_tag_only_lines, result == old('text'))",
+        "lines_kept_verbatim": "implies(has_tag_only_lines, len(pos) == len(lines) and"
+                               " all(result_lines[pos[j]] == lines[j] and implies(j > 0, pos[j - 1] < pos[j]) for j in range(len(lines))))",
+        "only_blank_lines_inserted": "implies(has_tag_only_lines, all(implies(src[k] == -1, result_lines[k] == '') for k in range(len(result_lines))))",
+        "nothing_inserted_inside_code": "implies(has_tag_only_lines, all(implies(src[k] == -1 and k + 1 < len(result_lines) and src[k + 1] >= 0,"
+                                        " not incode[src[k + 1]]) for k in range(len(result_lines))))",
+        "separated_where_needed": "implies(has_tag_only_lines, all(implies(not incode[j] and needs_blank(j), pos[j] >= 1 and src[pos[j] - 1] == -1)"
+                                  " for j in range(len(lines))))",
+        "joined": "implies(has_tag_only_lines, result == joinr('\\n', result_lines, 0, len(result_lines)))",
+    },
+    canaries=[
+        ("and line.strip() == fence_match.group(1)", "and line.rstrip() == fence_match.group(1)", None, ["fence_state"]),
+        ("and len(fence_match.group(1)) >= len(open_fence)", "and len(fence_match.group(1)) > len(open_fence)", None, ["fence_state"]),
+        ("if not prev_is_empty and _is_tag_only_line(prev_line) and line_is_block_content(line):", "if not prev_is_empty and _is_tag_only_line(prev_line) and line_is_block_content(prev_line):", None, ["separated_where_needed", "blank_only_outside"]),
     ],
 ))
